@@ -274,6 +274,21 @@ func checkC08(c *Check) {
 				"the "+n+" arm does not build the judging handler from the current filter's own configuration")
 		}
 	}
+	// the per-filter loop: next filter only after OK, returned responses classified (the obligations of C01.R5)
+	serverLoopRule = "C08.R3"
+	c01R5(c, R)
+	serverLoopRule = "C01.R5"
+	// the judging handler is built in this check from the current filter only: every source of the Process
+	// receiver is a handler constructor call made in Check (a cached or shared handler may belong to another chain)
+	for _, l := range Leaves(procCall.Common().Value, leafOpts{noConcat: true}) {
+		if isNilConst(l) {
+			continue
+		}
+		hc, _, isC := asCall(l)
+		okH := isC && hc.Common().StaticCallee() != nil && pkgPathOf(hc.Common().StaticCallee()) == pkgAuthz && hc.Parent() == fn
+		c.Obl(okH, "C08.R3", "handler-built-per-check/"+shortOrigin(l), P.Pos(procCall.Pos()), "handler = constructor call in this check",
+			"the handler that judges the request can come from "+descDepth(l, 3)+" instead of being built in this check from the current filter (a cached handler can belong to another chain)")
+	}
 	// denial is returned as is: covered by C01.R5's return classification; restated here for the denial edge
 	respArg := resolveCell(stripConv(callArgs(procCall)[2]))
 	okAsIs := false
